@@ -49,7 +49,7 @@ def killCond (fixed : Bool) (st : Status) : Bool :=
 
 /-- Which variant the code under test is (tied to the source by `Extracted.terminateKillCondition`,
 see `Props/C05.lean`). -/
-def codeFixed : Bool := false
+def codeFixed : Bool := true
 
 /-- the textual form `extract.py` reads out of `ActorCell::terminate` -/
 def killCondText (fixed : Bool) : String := if fixed then "< Stopping" else "<= Upgrading"
